@@ -186,12 +186,14 @@ def catches (names : List ExcName) : Exc → Bool
   | .tornPickle => names.any (·.covers .eof) && names.any (·.covers .unpickling)
   | e => names.any (·.covers e)
 
-/-- `torch.load(path)`: `none` = loaded -/
-def loadWeights (fs : FS) (p : Path) : Option Exc :=
-  match fs p with
+/-- `torch.load` of a file with this content: `none` = loaded -/
+def loadContent : Content → Option Exc
   | .absent => some .fileNotFound
   | .torn _ e => some e
   | .complete _ _ => none
+
+/-- `torch.load(path)`: `none` = loaded -/
+def loadWeights (fs : FS) (p : Path) : Option Exc := loadContent (fs p)
 
 /-- what the `except` body around the weights load does -/
 inductive Fallback
@@ -206,24 +208,57 @@ structure WeightsHandler where
   guardExists : Bool         -- `if os.path.exists(weights_file):`
   excs : List ExcName        -- `except (…)` around `reload_weights`; `[]` = no try
   fallback : Fallback
+  onMissing : Bool           -- the fallback also runs when the (guarded) file is missing (`if not loaded:`)
+  resetPath : Bool           -- after a successful fallback `self.flow.weights_file = weights_file`
 deriving Repr, DecidableEq
 
-def runFallback (fs : FS) (fam : Fam) (e : Exc) : Fallback → Option Exc
+/-- A standard-sampler checkpoint records WHICH weights file the flow last loaded or saved
+(`FlowModel.load_weights/save_weights` set `self.weights_file`): code `0` = none,
+`1` = `model.pt`, `2` = `model.pt.old` (after a fallback the recorded path drifts to `.old`). -/
+def primary (n : Nat) : Suffix := if n = 2 then .old else .base
+
+/-- the file the `except` body falls back to: `<weights_file>.old` — for a drifted path that is
+`model.pt.old.old`, which nothing ever writes -/
+def fallbackContent (fs : FS) (n : Nat) : Content :=
+  if n = 2 then .absent else fs ⟨.weights, .old⟩
+
+def runFallback (c : Content) (e : Exc) : Fallback → Option Exc
   | .reraise => some e
   | .skip => none
   | .loadOld g c2 =>
-    if g && !fs.has ⟨fam, .old⟩ then none
-    else match loadWeights fs ⟨fam, .old⟩ with
+    if g && !c.exists? then none
+    else match loadContent c with
       | none => none
       | some e2 => if catches c2 e2 then none else some e2
 
-/-- `FlowProposal.resume`, weights part, for a state that refers to `n` weights files -/
+/-- `FlowProposal.resume`, weights part, for a checkpoint whose recorded weights path has code `n`:
+the exception it ends with, `none` = it returns -/
 def stdWeightsResume (h : WeightsHandler) (fs : FS) (n : Nat) : Option Exc :=
   if n = 0 then (if h.skipWhenNone then none else some .fileNotFound)
-  else if h.guardExists && !fs.has ⟨.weights, .base⟩ then none
-  else match loadWeights fs ⟨.weights, .base⟩ with
+  else if h.guardExists && !fs.has ⟨.weights, primary n⟩ then
+    (if h.onMissing then runFallback (fallbackContent fs n) .fileNotFound h.fallback else none)
+  else match loadWeights fs ⟨.weights, primary n⟩ with
     | none => none
-    | some e => if catches h.excs e then runFallback fs .weights e h.fallback else some e
+    | some e => if catches h.excs e then runFallback (fallbackContent fs n) e h.fallback else some e
+
+/-- what a fallback brings back: (version, path code recorded afterwards) -/
+def fallbackBack (h : WeightsHandler) (fs : FS) (n : Nat) : Nat × Nat :=
+  match h.fallback with
+  | .loadOld _ _ =>
+    match fallbackContent fs n with
+    | .complete w _ => (w, if h.resetPath then (if n = 2 then 2 else 1) else 2)
+    | _ => (0, 0)
+  | _ => (0, 0)
+
+/-- … and, when it returns, WHAT came back: (version of the weights now in the flow, `0` = none:
+the flow stays untrained; path code now recorded in `flow.weights_file`) -/
+def stdWeightsBack (h : WeightsHandler) (fs : FS) (n : Nat) : Nat × Nat :=
+  if n = 0 then (0, 0)
+  else if h.guardExists && !fs.has ⟨.weights, primary n⟩ then
+    (if h.onMissing then fallbackBack h fs n else (0, 0))
+  else match fs ⟨.weights, primary n⟩ with
+    | .complete w _ => (w, if n = 2 then 2 else 1)
+    | _ => fallbackBack h fs n
 
 /-- `glob(level_*/model.pt)` below `top` -/
 def countLevels (fs : FS) : Nat → Nat
@@ -260,9 +295,18 @@ def weightsResume (kind : Kind) (cfg : ResumeCfg) (top : Nat) (fs : FS) (n : Nat
   | .std => stdWeightsResume cfg.weights fs n
   | .ins => insWeightsResume top fs n
 
+/-- what comes back with the checkpoint: (weights version in the flow — standard sampler only,
+`0` = none —, in-memory weights count / path code after the restart) -/
+def weightsBack (kind : Kind) (cfg : ResumeCfg) (fs : FS) (n : Nat) : Nat × Nat :=
+  match kind with
+  | .std => stdWeightsBack cfg.weights fs n
+  | .ins => (0, n)
+
+/-- `loaded v n w m`: checkpoint version `v` that recorded weights code/count `n`; the flow holds
+weights version `w` (`0` = none came back); `m` = weights code/count now in memory -/
 inductive Outcome
   | fresh
-  | loaded (v n : Nat)
+  | loaded (v n w m : Nat)
   | raises (e : Exc)
 deriving DecidableEq, Repr
 
@@ -273,7 +317,7 @@ def attempt (kind : Kind) (cfg : ResumeCfg) (top : Nat) (fs : FS) (s : Suffix) :
   | .torn _ _ => .raises .tornPickle
   | .complete v n =>
     match weightsResume kind cfg top fs n with
-    | none => .loaded v n
+    | none => .loaded v n (weightsBack kind cfg fs n).1 (weightsBack kind cfg fs n).2
     | some e => .raises e
 
 def resume (kind : Kind) (cfg : ResumeCfg) (top : Nat) (fs : FS) : Outcome :=
@@ -290,7 +334,7 @@ def resume (kind : Kind) (cfg : ResumeCfg) (top : Nat) (fs : FS) : Outcome :=
 /-- `some none` = started afresh, `some (some v)` = loaded version `v`, `none` = raised -/
 def Outcome.version : Outcome → Option (Option Nat)
   | .fresh => some none
-  | .loaded v _ => some (some v)
+  | .loaded v _ _ _ => some (some v)
   | .raises _ => none
 
 /-! ### Histories: the run as a sequence of checkpoints and weight saves, some killed -/
@@ -302,15 +346,18 @@ structure Protocol where
   cfg : ResumeCfg
 
 inductive Ev
-  /-- `checkpoint(save_existing=se)` of state version `v`; `n` = weights files referred to
-  (standard sampler: 0/1 as given; importance sampler: the in-memory level count is used) -/
+  /-- `checkpoint(save_existing=se)` of state version `v`.  What the pickle records about the
+  weights is the in-memory `mem` of the model (standard sampler: path code 0/1/2 of
+  `flow.weights_file`; importance sampler: level count); the event's `n` is what the harness
+  observed and is only compared through the directory listing. -/
   | ckpt (se : Bool) (v n len : Nat) (cp : Option CrashPt)
   /-- a training ends with `save_weights` (version `w`); standard sampler: the fixed path,
   importance sampler: `level_<mem>` -/
   | train (w len : Nat) (e : Exc) (cp : Option CrashPt)
 deriving Repr
 
-/-- `mem`: levels held in memory (importance sampler); `top`: level directories ≥ `top` do not exist -/
+/-- `mem`: levels held in memory (importance sampler) / code of `flow.weights_file` (standard sampler);
+`top`: level directories ≥ `top` do not exist -/
 structure Sys where
   fs : FS
   mem : Nat
@@ -321,11 +368,14 @@ def initSys : Sys := ⟨emptyFS, 0, 0⟩
 /-- in-memory level count after the process is killed and restarted with resume -/
 def memAfter (o : Outcome) : Nat :=
   match o with
-  | .loaded _ n => n
+  | .loaded _ _ _ m => m
   | _ => 0
 
 /-- the weights count a checkpoint records -/
-def ckptN (kind : Kind) (n mem : Nat) : Nat := match kind with | .std => n | .ins => mem
+def ckptN (_kind : Kind) (_n mem : Nat) : Nat := mem
+/-- what is in memory after a training: the standard sampler's flow records `model.pt` (code 1),
+the importance sampler holds one more level -/
+def trainMem (kind : Kind) (mem : Nat) : Nat := match kind with | .std => 1 | .ins => mem + 1
 /-- where a training saves its weights -/
 def trainFam (kind : Kind) (mem : Nat) : Fam := match kind with | .std => .weights | .ins => .level mem
 def trainTop (kind : Kind) (top mem : Nat) : Nat := match kind with | .std => top | .ins => max top (mem + 1)
@@ -343,7 +393,7 @@ def step (kind : Kind) (P : Protocol) (s : Sys) : Ev → Sys
     let top' := trainTop kind s.top s.mem
     let d : Dump := ⟨w, 0, len, e⟩
     match cp with
-    | none => { fs := runProg P.saveWeights fam d s.fs, mem := s.mem + 1, top := top' }
+    | none => { fs := runProg P.saveWeights fam d s.fs, mem := trainMem kind s.mem, top := top' }
     | some cp =>
       let fs' := crashState P.saveWeights fam d s.fs cp
       { fs := fs', mem := memAfter (resume kind P.cfg top' fs'), top := top' }
@@ -360,11 +410,6 @@ def allowedFrom (acc : List (Option Nat)) : List Ev → List (Option Nat)
   | .train _ _ _ _ :: r => allowedFrom acc r
 
 def allowed (hist : List Ev) : List (Option Nat) := allowedFrom [none] hist
-
-/-- a weights save that is killed is killed between operations, never inside the write -/
-def Ev.noTornTrain : Ev → Bool
-  | .train _ _ _ (some ⟨_, some _, _⟩) => false
-  | _ => true
 
 /-- is the handler enough to survive a torn (or torn-and-rotated) weights file? -/
 def coversTorn (names : List ExcName) : Bool :=
